@@ -1,6 +1,7 @@
 import Op2Proofs.Prt.ReadFacts
 import Op2Proofs.Prt.WriteFacts
 import Op2Proofs.Prt.RoundTrip
+import Op2Proofs.Prt.Bytes
 /-!
 # C10 — PRT sprite metadata round-trips and always satisfies its cross-field rules
 -/
@@ -49,6 +50,73 @@ theorem C10_stable (b : Bytes) (a : ArtFile) (h : read b = .ok a) (w : Bytes) (h
   have : a = a' := by simpa using h'
   subst this
   exact hw
+
+/-- every accepted input is, byte for byte, the encoding of the returned structure (with the palette headers `hs` the
+    input had) followed by the untouched rest, where
+    `encFileH hs a = "CPAL" ++ u32 |palettes| ++ (hs zip palettes).flatMap (h ++ encPalette p) ++ u32 |images| ++
+     images.flatMap encImage ++ u32 |animations| ++ u32 (total frames) ++ u32 (total layers) ++ u32 unknownAnimationCount ++
+     animations.flatMap encAnim`.
+    In particular the palette / image / animation counts and the frame and layer totals stored in the input equal the
+    actual contents of the structure. -/
+theorem C10_read_layout (b : Bytes) (hs : List Bytes) (a : ArtFile) (rest : Bytes) (h : readFull b = .ok ((hs, a), rest)) :
+    b = encFileH hs a ++ rest := by
+  have := inv_readFull _ _ _ h
+  exact this
+
+/-- the palette count sits at offset 4, every palette has 256 colours, the totals fit their 32-bit fields -/
+theorem C10_read_totals (b : Bytes) (a : ArtFile) (h : read b = .ok a) :
+    decU32 (b.drop 4) = a.palettes.length ∧
+    (∀ p ∈ a.palettes, p.length = 256) ∧
+    totalFrames a.animations < W32 ∧ totalLayers a.animations < W32 := by
+  obtain ⟨hs, rest, hr⟩ := read_eq_ok h
+  have hp := post_readFull _ _ _ hr
+  refine ⟨?_, hp.1.2.2.1, hp.1.2.2.2.2.2.2.2.2.2.1, hp.1.2.2.2.2.2.2.2.2.2.2.1⟩
+  rw [(readFull_headers hr).1]; exact hp.2.2.1
+
+/-- palettes are red-green-blue(-alpha) fields in memory and blue-green-red(-alpha) bytes in the file: the accepted
+    input consists of the `CPAL` header, then per palette its 28 header bytes and, for each of its colours in order, the
+    four bytes blue, green, red, alpha; then the rest of the file -/
+theorem C10_palette_order (b : Bytes) (hs : List Bytes) (a : ArtFile) (rest : Bytes) (h : readFull b = .ok ((hs, a), rest)) :
+    (∃ tail, b = tagCPAL ++ encU32 a.palettes.length ++
+      (hs.zip a.palettes).flatMap (fun hp => hp.1 ++ hp.2.flatMap (fun c => [c.blue, c.green, c.red, c.alpha])) ++ tail) ∧
+      hs.length = a.palettes.length ∧ (∀ h ∈ hs, h.length = 28) ∧ (∀ p ∈ a.palettes, p.length = 256) := by
+  have hp := post_readFull _ _ _ h
+  refine ⟨?_, hp.2.2.1, fun x hx => (hp.2.2.2 x hx).1, hp.1.2.2.1⟩
+  obtain ⟨tail, ht⟩ := encFileH_palettes hs a
+  exact ⟨tail ++ rest, by rw [C10_read_layout b hs a rest h, ht]; simp only [List.append_assoc]⟩
+
+/-- … and the writer emits the same order after the canonical header -/
+theorem C10_palette_order_write (a : ArtFile) (w : Bytes) (h : write a = .ok w) :
+    ∃ tail, w = tagCPAL ++ encU32 a.palettes.length ++
+      a.palettes.flatMap (fun p => canonicalPaletteHeader ++ p.flatMap (fun c => [c.blue, c.green, c.red, c.alpha])) ++ tail := by
+  obtain ⟨_, _, rfl⟩ := write_ok h
+  exact encFile_palettes a
+
+/-- whenever the input's palette section headers are canonical, writing reproduces the input bytes (the consumed part;
+    the reader does not look at what follows) -/
+theorem C10_bytes (b : Bytes) (a : ArtFile) (h : read b = .ok a) (hc : canonicalPaletteHeaders b) :
+    write a = .ok (b.take (consumed b)) := by
+  obtain ⟨hs, rest, hr⟩ := read_eq_ok h
+  have hp := post_readFull _ _ _ hr
+  obtain ⟨hnp, hat⟩ := readFull_headers hr
+  have hcan : ∀ x ∈ hs, x = canonicalPaletteHeader := by
+    intro x hx
+    obtain ⟨i, hi, rfl⟩ := List.getElem_of_mem hx
+    rw [← hat i hi]; exact hc i (by rw [hnp]; exact hi)
+  have hb := C10_read_layout b hs a rest hr
+  rw [encFileH_of_canonical hs a hp.2.2.1 hcan] at hb
+  have hcons : consumed b = (encFile a).length := by
+    unfold consumed; rw [hr]; simp only; rw [hb]; simp
+  rw [write_of hp.1 hp.2.1, hcons, hb]
+  simp
+
+/-- and for every accepted input, canonical headers or not, the written bytes are those of the input with each palette
+    header replaced by the canonical one -/
+theorem C10_bytes_general (b : Bytes) (hs : List Bytes) (a : ArtFile) (rest : Bytes) (h : readFull b = .ok ((hs, a), rest)) :
+    b = encFileH hs a ++ rest ∧ write a = .ok (encFileH (a.palettes.map fun _ => canonicalPaletteHeader) a) := by
+  have hp := post_readFull _ _ _ h
+  refine ⟨C10_read_layout b hs a rest h, ?_⟩
+  rw [write_of hp.1 hp.2.1, encFileH_of_canonical _ a (by simp) (by intro x hx; simp at hx; exact hx.2.symm)]
 
 /- "Writing never alters the in-memory object": `write : ArtFile → Except Err Bytes` is a function; its argument is a value,
    not a reference, so the clause has no content in the model.  It is checked on the real object (structural dump before
